@@ -25,7 +25,7 @@ RULE = (
     "membership, connectivity, untouched branches, comparison with a directly built module (tables + 2 eager steps on every backend); "
     "path independence: all histories reaching one ncomp vector must give one canonical state"
 )
-REQUIRED_COVER = ["padded_parent_with_children", "groups_present", "swc_radius_profile", "shrink", "grow", "path_independence_checked",
+REQUIRED_COVER = ["min_radius_option", "min_radius_with_unchanged_ncomp", "padded_parent_with_children", "groups_present", "swc_radius_profile", "shrink", "grow", "path_independence_checked",
                   "accepted:jaxley.stone", "accepted:jaxley.thomas", "accepted:jax.sparse"]
 ASSUMPTIONS = [
     "tables are compared up to round-off (1e-12): set_ncomp averages the rows of the branch, which can change a uniform value by an ulp",
@@ -81,13 +81,16 @@ def _hand(ncomps, channels=True):
     return cell
 
 
-def _swc(ncomp=2):
+MIN_RADIUS = 0.75  # above several traced radii of the SWC file (0.3 .. 0.7), below others
+
+
+def _swc(ncomp=2, min_radius=None):
     J = build.jx()
     fd, path = tempfile.mkstemp(suffix=".swc")
     with os.fdopen(fd, "w") as f:
         f.write(SWC)
     try:
-        c = J.read_swc(path, ncomp=ncomp)
+        c = J.read_swc(path, ncomp=ncomp, min_radius=min_radius)
     finally:
         os.unlink(path)
     return c
@@ -103,6 +106,8 @@ OPS = collections.OrderedDict()
 for _b in range(6):
     for _n in NS:
         OPS[f"b{_b}_n{_n}"] = (lambda b, n: (lambda m: m.branch(b).set_ncomp(n)))(_b, _n)
+        # the rarely used option: the radius cap is (re)applied to the modified branch -- also when n equals the present count
+        OPS[f"b{_b}_n{_n}_mr"] = (lambda b, n: (lambda m: m.branch(b).set_ncomp(n, min_radius=MIN_RADIUS)))(_b, _n)
 _NB = {"hand_hh": 4, "hand_passive": 4, "swc": None}
 OPS_FOR = {}
 _tier_ns = {"quick": [1, 2, 3], "thorough": [1, 2, 3, 4]}
@@ -118,10 +123,21 @@ def _nbranches(init):
 def set_tier(tier):
     for init in INITS:
         OPS_FOR[init] = [f"b{b}_n{n}" for b in range(_nbranches(init)) for n in _tier_ns[tier]]
+        if init == "swc":
+            OPS_FOR[init] += [f"b{b}_n{n}_mr" for b in range(_nbranches(init)) for n in _tier_ns[tier]]
 
 
 def state_label(m):
     return ",".join(str(int(x)) for x in m.ncomp_per_branch)
+
+
+def state_label_hist(m, hist):
+    """ncomp vector plus, per branch, whether its LAST set_ncomp call carried the min_radius cap: states with equal labels must be equal."""
+    caps = []
+    for b in range(len(m.ncomp_per_branch)):
+        last = [op for op in hist if op.startswith(f"b{b}_")]
+        caps.append("c" if last and last[-1].endswith("_mr") else "")
+    return ",".join(f"{int(x)}{c}" for x, c in zip(m.ncomp_per_branch, caps))
 
 
 def _branch_groups(m):
@@ -156,10 +172,10 @@ def _direct(init, vec):
     return None
 
 
-def _swc_branch_rows(n):
-    key = ("swc_rows", n)
+def _swc_branch_rows(n, min_radius=None):
+    key = ("swc_rows", n, min_radius)
     if key not in _cache:
-        m = _swc(n)
+        m = _swc(n, min_radius)
         _cache[key] = {int(b): df.reset_index(drop=True) for b, df in m.nodes.groupby("global_branch_index")}
     return _cache[key]
 
@@ -241,7 +257,9 @@ def invariants(m, hist, **kw):
             errs.append(("direct_build_tables", "differ", "; ".join(diffs[:4])))
     else:
         for b in range(len(vec)):
-            want = _swc_branch_rows(vec[b])[b]
+            last = [op for op in hist if op.startswith(f"b{b}_")]
+            capped = bool(last) and last[-1].endswith("_mr")  # the cap belongs to the LAST set_ncomp call on this branch
+            want = _swc_branch_rows(vec[b], MIN_RADIUS if capped else None)[b]
             rows = nd[nd["global_branch_index"] == b].reset_index(drop=True)
             for col in ("radius", "length"):
                 if not np.allclose(rows[col].to_numpy(), want[col].to_numpy(), rtol=1e-9):
@@ -276,8 +294,12 @@ def cover_of(m, hist):
         out.append("groups_present")
     if getattr(m, "_radius_generating_fns", None) is not None:
         out.append("swc_radius_profile")
-    n = int(hist[-1].split("_n")[1])
+    n = int(hist[-1].split("_n")[1].split("_")[0])
     b = int(hist[-1].split("_")[0][1:])
+    if hist[-1].endswith("_mr"):
+        out.append("min_radius_option")
+        if len(hist) >= 1 and n == _init_info("swc")["ncomp"][b] and not any(op.startswith(f"b{b}_") for op in hist[:-1]):
+            out.append("min_radius_with_unchanged_ncomp")
     return out + (["grow"] if n >= 3 else []) + (["shrink"] if n == 1 else [])
 
 
